@@ -255,6 +255,6 @@ func TestVerifC06APIRecordings(t *testing.T) {
 		for c := range classes {
 			cl = append(cl, c)
 		}
-		rec.Case(nontrivial, fmt.Sprintf("recordPath=%q %s", strings.Replace(tr.RecordPath, tr.Base, "$BASE", 1), strings.Join(descs, " ")), cl...)
+		rec.Case(nontrivial, fmt.Sprintf("recordPath=%q %s", tr.DescRecordPath(), strings.Join(descs, " ")), cl...)
 	})
 }
